@@ -57,7 +57,11 @@ NearPts(U) == UNION {
 CrossPts(rc) == IF rc = 0 THEN {}
                 ELSE UNION {{Pt(m, rc), Pt(m * (E6 - 1), rc * E6), Pt(m * (E6 + 1), rc * E6)} : m \in 1..8}
 QPoints(U, rc) == NearPts(U) \cup CrossPts(rc) \cup {Pt(1, 1), Pt(1, 1024), Pt(1024, 1)}
+(* no-purity grid: eighths up to 5, a few non-dyadic ratios, and 1e-6 either side of every point *)
+(* where rc * q passes a half-integer (the rounding boundary), rc = 1..6                        *)
 PureGrid == {Pt(j, 8) : j \in 1..40} \cup {Pt(1, 3), Pt(7, 10), Pt(1, 1024), Pt(4001, 1000)}
+            \cup UNION {{Pt((2*m + 1) * (E6 - 1), 2 * rc * E6), Pt((2*m + 1) * (E6 + 1), 2 * rc * E6)} :
+                          m \in 0..4, rc \in 1..6}
 AnyGrid  == {Pt(1, 1024), Pt(1, 32), Pt(1, 4), Pt(1, 2), Pt(1, 1), Pt(3, 2), Pt(4, 1), Pt(1024, 1)}
 
 VARIABLES op, c, U, row, ph, out
@@ -128,11 +132,11 @@ RecOf(o) ==
      rows |-> << <<c[6], row[1], row[2], row[3], row[4], row[5], row[6], row[7], row[8], row[9], row[10]>> >>,
      out |-> << <<ZInt(o[1]).neg, ZInt(o[1]).m, TRUE, o[2], o[3], o[4], o[5], o[6], o[7],
                   IF o[3] /\ row[10] > 0 THEN (row[9] * E6) \div row[10] ELSE -1>> >>]
-Rec == RecOf(out)
+Rec == Decode(RecOf(out))
 
 (* A-layer outputs for this state (a set: float ties on inexact values admit two results) *)
 AOuts ==
-    LET r0 == RecOf(NoOut)
+    LET r0 == Decode(RecOf(NoOut))
         has == AHas12(r0)
     IN UNION {
          LET miss == has /\ BafMissing(RowAt(r0, 1)) /\ ZCmp(cn, ZZero) > 0
@@ -156,13 +160,15 @@ DesignOK == ph = "ret" => (Premise(Rec) => \A cl \in Clauses(op) : Holds(cl, Rec
 DesignNonNeg == (ph = "ret" /\ op = "clonal_any" /\ Premise(Rec)) => Holds("any_cn_nonneg_int", Rec)
 
 (* C02 "hence": with the default thresholds cn never decreases along a grid of 2000 ratios     *)
-(* (q = j/250, j = 1..2000, i.e. log2 from -7.97 to 3) and is 2 at log2 0 on a diploid autosome *)
+(* (q = j/250, j = 1..2000, i.e. log2 from -7.97 to 3) and is 2 at log2 0 on a diploid autosome. *)
+(* TLC shows that this follows from the step function in every configuration except reference  *)
+(* copies = ploidy = 1 (finding F-C02, StepDropsAtTop), where it shows that it does NOT.         *)
 GridCn(j, rc, ploidy) == CHOOSE z \in ThresholdCallSet(Pt(j, 250), FALSE, DefaultU, rc, ploidy) : TRUE
 DesignMonotone ==
-    (ph = "call" /\ op = "threshold" /\ UPts(U) = DefaultU /\ row[7]) =>
+    (ph = "ret" /\ op = "threshold" /\ UPts(U) = DefaultU /\ row[7]) =>
         LET rc == RefCopies(Class(row[1], row[2], row[3], "none"), c[1], c[4])
             g == [j \in 1..2000 |-> GridCn(j, rc, c[1])]
         IN /\ \A j \in 1..2000 : \A i \in 1..4 : PtCmp(Pt(j, 250), DefaultU[i]) # 2
-           /\ \A j \in 1..1999 : ZCmp(g[j], g[j+1]) <= 0
+           /\ (\A j \in 1..1999 : ZCmp(g[j], g[j+1]) <= 0) <=> ~StepDropsAtTop(rc, c[1])
            /\ (c[1] = 2 /\ Kind(row[1]) = "auto") => g[250] = ZInt(2)
 =============================================================================
